@@ -48,10 +48,11 @@ PROPS = {
             dict(run=B + "VerifC05Ring", quick=dict(maxsize=3), thorough=dict(maxsize=5), covers=["wrapped", "found", "low", "high", "empty"]),
             dict(run=B + "VerifC05Handover", quick=dict(before=1, during=1, preempt=1), thorough=dict(before=1, during=2, preempt=2), covers=["events-delivered", "done"], stress=60),
             dict(run=B + "VerifC05SlowConsumer", quick=dict(batches=5, reads=4, preempt=2), thorough=dict(batches=6, reads=5, preempt=3), covers=["closed-for-slow-consumer", "several-delivered", "done"], stress=200),
+            dict(run=B + "VerifC05Fanout", quick=dict(watches=3, events=3), thorough=dict(watches=3, events=5), covers=["several-matching", "some-filtered", "done"]),
         ],
-        bounds=dict(quick="sequential client: 2-write history, watch from a symbolic start revision (0, below/inside/at/above the cached window) on 4 prefixes, 1 further write, event cache of 2 entries (wraps); ring: sizes 1..3 with symbolic counters and revisions; hand-over: watch registration racing 1 concurrent write with the sequencer and fan-out threads in the schedule (<= 1 delay); slow consumer: 5 queued batches, subscriber buffers of 1, consumer/forwarder/fan-out/removal interleaved (<= 2 delays)",
+        bounds=dict(quick="sequential client: 2-write history, watch from a symbolic start revision (0, below/inside/at/above the cached window) on 4 prefixes, 1 further write, event cache of 2 entries (wraps); fan-out: 3 watches on different prefixes and one broadcast batch of 3 put/delete events on any of 4 keys; ring: sizes 1..3 with symbolic counters and revisions; hand-over: watch registration racing 1 concurrent write with the sequencer and fan-out threads in the schedule (<= 1 delay); slow consumer: 5 queued batches, subscriber buffers of 1, consumer/forwarder/fan-out/removal interleaved (<= 2 delays)",
                     thorough="2 keys, 2 further writes; ring sizes 1..5; hand-over with 2 concurrent writes and 2 delays; 6 batches and 3 delays"),
-        outside="real channel capacities (10000 / 100) other than through the isolated fan-out harness; more than 2 scheduling delays; several concurrent watchers",
+        outside="real channel capacities (10000 / 100) other than through the isolated fan-out harness; more than 2 scheduling delays; more than 3 watches on one node, broadcast batches of more than 3 (thorough 5) events",
     ),
     "C07": dict(
         harnesses=[
